@@ -694,7 +694,18 @@ func (w *idxWriter) Commit(ctx context.Context) (telem.TimeStamp, error) {
 	}
 	// because the range is exclusive, we need to add 1 nanosecond to the end
 	end.Lower++
-	for _, chW := range w.internal {
+	// Every channel persists its own domain index, one after the other, so a crash can
+	// fall between two of them. Commit the index channel before the channels it indexes:
+	// the worst case is then timestamps without data (the data channels simply end one
+	// commit earlier), never data whose timestamps were lost.
+	idxW, writesIdx := w.internal[w.idx.ch.Key]
+	if writesIdx {
+		err = errors.Join(err, idxW.CommitWithEnd(ctx, end.Lower))
+	}
+	for k, chW := range w.internal {
+		if writesIdx && k == w.idx.ch.Key {
+			continue
+		}
 		err = errors.Join(err, chW.CommitWithEnd(ctx, end.Lower))
 	}
 	if err == nil {
@@ -714,13 +725,25 @@ func (w *idxWriter) Close() (ControlUpdate, error) {
 	update := ControlUpdate{
 		Transfers: make([]control.Transfer, 0, len(w.internal)),
 	}
-	for _, uWriter := range w.internal {
+	closeOne := func(uWriter *unaryWriterState) {
 		transfer, closeErr := uWriter.Close()
 		if closeErr != nil {
 			err = errors.Join(err, closeErr)
 		} else if transfer.Occurred() {
 			update.Transfers = append(update.Transfers, transfer)
 		}
+	}
+	// Closing persists commits that were not yet flushed to the channel's domain index;
+	// as in Commit, the index channel goes first.
+	idxW, writesIdx := w.internal[w.idx.ch.Key]
+	if writesIdx {
+		closeOne(idxW)
+	}
+	for k, uWriter := range w.internal {
+		if writesIdx && k == w.idx.ch.Key {
+			continue
+		}
+		closeOne(uWriter)
 	}
 	return update, err
 }
